@@ -132,7 +132,8 @@ Output(o, P, env) ==
         ELSE IF addr.k \notin {"address", "bytes"} THEN Err("output address")
         ELSE [k |-> "out", optional |-> o.optional,
               empty |-> IsZero(val.lovelace) /\ DOMAIN val.assets = {},
-              address |-> addr.v, lovelace |-> val.lovelace, assets |-> val.assets, datum |-> DatumTree(dat)]
+              address |-> addr.v, lovelace |-> val.lovelace, assets |-> val.assets, datum |-> DatumTree(dat),
+              script_ref |-> [k |-> "none"]]
 
 \* mint: sum of mints minus sum of burns per class
 MintBlockVal(b, P, env) == D(b.amount, "asset", P, env)
@@ -216,6 +217,65 @@ RewardRedeemers(P, env, wds) ==
           data |-> Enc(D(P.tx.withdrawals[i].redeemer, "datum", P, env))] :
             i \in {i \in DOMAIN wds : ~IsAbsent(P.tx.withdrawals[i].redeemer)}}
 
+(* ------------------------------------------------------------------------ *)
+(* chain-specific blocks (cardano::...), in source order in t.cardano          *)
+(*   donation{coin}  plutus_witness{version, script}  native_witness{script}    *)
+(*   publish{to, amount, datum, version, script}  vote_deleg{drep, stake}        *)
+(* ------------------------------------------------------------------------ *)
+CardanoOf(t) == IF "cardano" \in DOMAIN t THEN t.cardano ELSE <<>>
+BlocksOfKind(t, kind) == SelectSeq(CardanoOf(t), LAMBDA b : b.k = kind)
+
+\* the treasury donation is a positive coin; what several donation blocks mean is not stated anywhere
+DonationOf(P, env) ==
+    LET ds == BlocksOfKind(P.tx, "donation")
+    IN  IF ds = <<>> THEN [k |-> "none"]
+        ELSE IF Len(ds) > 1 THEN Unspec
+        ELSE LET v == D(ds[1].coin, "plain", P, env)
+             IN  IF Bad(v) THEN v ELSE IF v.k # "number" THEN Err("donation amount")
+                 ELSE IF ~InU64(v.num) THEN Err("donation out of range")
+                 ELSE IF IsZero(v.num) THEN Err("zero donation")
+                 ELSE [k |-> "some", n |-> v.num]
+
+\* a script carried in the witness set: (language, bytes); language 0 is a native script
+WitnessOf(b, P, env) ==
+    LET scr == D(b.script, "plain", P, env)
+        ver == IF b.k = "plutus_witness" THEN D(b.version, "plain", P, env) ELSE Num(Zero)
+    IN  IF Bad(ver) THEN ver ELSE IF Bad(scr) THEN scr
+        \* the code leaves out a witness block whose fields have another shape; the property does not cover that
+        ELSE IF ver.k # "number" \/ scr.k # "bytes" THEN Unspec
+        ELSE IF b.k = "plutus_witness" /\ ~(FitsInt(ver.num) /\ ToInt(ver.num) \in {1, 2, 3}) THEN Unspec
+        ELSE [k |-> "script", lang |-> ToInt(ver.num), v |-> scr.v]
+
+\* the stake credential an address delegates to: [kind 0 key | 1 script, hash]
+StakeCredOf(a) ==
+    IF a.k \notin {"address", "bytes"} \/ Len(a.v) = 0 THEN Err("stake credential")
+    ELSE LET hi == a.v[1] \div 16 IN
+         IF hi \in {14, 15} /\ Len(a.v) = 29 THEN [k |-> "cred", kind |-> hi - 14, hash |-> SubSeq(a.v, 2, 29)]
+         ELSE IF hi \in {0, 1, 2, 3} /\ Len(a.v) = 57 THEN [k |-> "cred", kind |-> hi \div 2, hash |-> SubSeq(a.v, 30, 57)]
+         ELSE Err("stake credential")
+VoteDelegOf(b, P, env) ==
+    LET drep == D(b.drep, "plain", P, env)
+        stake == D(b.stake, "address", P, env)
+    IN  IF Bad(drep) THEN drep ELSE IF Bad(stake) THEN stake
+        ELSE LET cred == StakeCredOf(stake)
+             IN  IF IsErr(cred) THEN cred
+                 ELSE IF drep.k # "bytes" THEN Err("drep")
+                 ELSE IF Len(drep.v) # 28 THEN Err("drep hash length")
+                 ELSE [k |-> "cert", kind |-> 9, cred_kind |-> cred.kind, cred |-> cred.hash, drep_kind |-> 0, drep |-> drep.v]
+
+\* a published script: one more output, after the ordinary ones, carrying a reference script when both
+\* version and script are stated
+PublishOf(b, P, env) ==
+    LET o == Output([name |-> "", optional |-> FALSE, to |-> b.to, amount |-> b.amount, datum |-> b.datum], P, env)
+        hasRef == ~IsAbsent(b.version) /\ ~IsAbsent(b.script)
+        ver == IF hasRef THEN D(b.version, "plain", P, env) ELSE Num(Zero)
+        scr == IF hasRef THEN D(b.script, "plain", P, env) ELSE [k |-> "bytes", v |-> <<>>]
+    IN  IF Bad(o) THEN o ELSE IF Bad(ver) THEN ver ELSE IF Bad(scr) THEN scr
+        ELSE IF ~hasRef THEN [o EXCEPT !.script_ref = [k |-> "none"]]
+        ELSE IF ver.k # "number" THEN Err("script version") ELSE IF scr.k # "bytes" THEN Err("script bytes")
+        ELSE IF ~(FitsInt(ver.num) /\ ToInt(ver.num) \in {0, 1, 2, 3}) THEN Err("script version")
+        ELSE [o EXCEPT !.script_ref = [k |-> "some", lang |-> ToInt(ver.num), v |-> scr.v]]
+
 DenoteTx(P, env) ==
     LET t == P.tx
         outs == FlatMap(LAMBDA o : <<Output(o, P, env)>>, t.outputs)
@@ -232,13 +292,21 @@ DenoteTx(P, env) ==
                    \o FlatMap(LAMBDA m : IF IsAbsent(m.redeemer) THEN <<>> ELSE <<D(m.redeemer, "datum", P, env)>>, t.mints \o t.burns)
         wds == FlatMap(LAMBDA w : <<WithdrawalOf(w, P, env)>>, t.withdrawals)
         wdReds == FlatMap(LAMBDA w : IF IsAbsent(w.redeemer) THEN <<>> ELSE <<D(w.redeemer, "datum", P, env)>>, t.withdrawals)
+        donation == DonationOf(P, env)
+        scripts == FlatMap(LAMBDA b : <<WitnessOf(b, P, env)>>, SelectSeq(CardanoOf(t), LAMBDA b : b.k \in {"plutus_witness", "native_witness"}))
+        certs == FlatMap(LAMBDA b : <<VoteDelegOf(b, P, env)>>, BlocksOfKind(t, "vote_deleg"))
+        pubs == FlatMap(LAMBDA b : <<PublishOf(b, P, env)>>, BlocksOfKind(t, "publish"))
         parts == outs \o <<mint, since, until>> \o signerVals \o metaVals \o refVals \o redVals \o wds \o wdReds
+                 \o <<donation>> \o scripts \o certs \o pubs
     IN  IF \E i \in DOMAIN parts : IsErr(parts[i]) THEN [k |-> "error", why |-> (parts[CHOOSE i \in DOMAIN parts : IsErr(parts[i])]).why]
         ELSE IF \E i \in DOMAIN parts : IsUnspec(parts[i]) THEN [k |-> "unspec"]
         ELSE [k |-> "tx",
               mayReject |-> mint.lenient,      \* an error is admitted too; if a transaction is emitted it must be this one
               inputs |-> AllInputRefs(P, env),
-              outputs |-> SelectSeq(outs, LAMBDA o : ~(o.optional /\ o.empty)),
+              outputs |-> SelectSeq(outs, LAMBDA o : ~(o.optional /\ o.empty)) \o pubs,
+              donation |-> donation,
+              scripts |-> {[lang |-> scripts[i].lang, v |-> scripts[i].v] : i \in DOMAIN scripts},
+              certs |-> FlatMap(LAMBDA c : <<[kind |-> c.kind, cred_kind |-> c.cred_kind, cred |-> c.cred, drep_kind |-> c.drep_kind, drep |-> c.drep]>>, certs),
               mint |-> mint.val,
               fee |-> env.fee,
               start |-> since, ttl |-> until,
@@ -260,13 +328,16 @@ SetOfSeq(s) == {s[i] : i \in DOMAIN s}
 AssetFn(items) == [c \in {[policy |-> items[i].policy, name |-> items[i].name] : i \in DOMAIN items} |->
                       items[CHOOSE i \in DOMAIN items : items[i].policy = c.policy /\ items[i].name = c.name].n]
 ObsOutput(o) == [address |-> o.address, lovelace |-> o.lovelace, assets |-> AssetFn(o.assets),
-                 datum |-> IF o.datum.k = "inline" THEN Strip(o.datum.data) ELSE [k |-> o.datum.k]]
-ExpOutput(o) == [address |-> o.address, lovelace |-> o.lovelace, assets |-> o.assets, datum |-> o.datum]
+                 datum |-> IF o.datum.k = "inline" THEN Strip(o.datum.data) ELSE [k |-> o.datum.k],
+                 script_ref |-> o.script_ref]
+ExpOutput(o) == [address |-> o.address, lovelace |-> o.lovelace, assets |-> o.assets, datum |-> o.datum, script_ref |-> o.script_ref]
 ObsTx(d) == [inputs |-> SetOfSeq(d.inputs),
              outputs |-> FlatMap(LAMBDA o : <<ObsOutput(o)>>, d.outputs),
              mint |-> AssetFn(d.mint), fee |-> d.fee, start |-> d.validity_start, ttl |-> d.ttl,
              signers |-> SetOfSeq(d.required_signers), references |-> SetOfSeq(d.reference_inputs),
              collateral |-> SetOfSeq(d.collateral),
+             donation |-> d.donation, scripts |-> SetOfSeq(d.scripts),
+             certs |-> FlatMap(LAMBDA c : <<[kind |-> c.kind, cred_kind |-> c.cred_kind, cred |-> c.cred, drep_kind |-> c.drep_kind, drep |-> c.drep]>>, d.certs),
              metadata |-> [lab \in {d.metadata[i].label : i \in DOMAIN d.metadata} |->
                               d.metadata[CHOOSE i \in DOMAIN d.metadata : d.metadata[i].label = lab].value],
              withdrawals |-> [acct \in {d.withdrawals[i].account : i \in DOMAIN d.withdrawals} |->
@@ -276,7 +347,8 @@ ObsTx(d) == [inputs |-> SetOfSeq(d.inputs),
                                i \in DOMAIN d.redeemers}]
 
 OutputDiff(e, o) == IF e.address # o.address THEN "address" ELSE IF e.lovelace # o.lovelace THEN "lovelace"
-                    ELSE IF e.assets # o.assets THEN "assets" ELSE IF e.datum # o.datum THEN "datum" ELSE "ok"
+                    ELSE IF e.assets # o.assets THEN "assets" ELSE IF e.datum # o.datum THEN "datum"
+                    ELSE IF e.script_ref # o.script_ref THEN "script_ref" ELSE "ok"
 Diff(exp, obs) ==
     LET eo == FlatMap(LAMBDA o : <<ExpOutput(o)>>, exp.outputs) IN
     IF exp.inputs # obs.inputs THEN [field |-> "inputs", sub |-> ""]
@@ -293,6 +365,9 @@ Diff(exp, obs) ==
     ELSE IF exp.collateral # obs.collateral THEN [field |-> "collateral", sub |-> ""]
     ELSE IF exp.metadata # obs.metadata THEN [field |-> "metadata", sub |-> ""]
     ELSE IF exp.withdrawals # obs.withdrawals THEN [field |-> "withdrawals", sub |-> ""]
+    ELSE IF exp.donation # obs.donation THEN [field |-> "donation", sub |-> ""]
+    ELSE IF exp.scripts # obs.scripts THEN [field |-> "witness_scripts", sub |-> ""]
+    ELSE IF exp.certs # obs.certs THEN [field |-> "certificates", sub |-> ""]
     ELSE IF exp.network # obs.network THEN [field |-> "network", sub |-> ""]
     ELSE IF exp.redeemers # obs.redeemers THEN [field |-> "redeemers", sub |-> ""]
     ELSE [field |-> "ok", sub |-> ""]
